@@ -57,7 +57,7 @@ LEVEL_TEXT = ("Theorems (Coq/MathComp, every shape and every entry, over an arbi
               "object itself included) as operands (model coq/C04_Life.v; theorems C04_life_step, C04_life_invariant, "
               "C04_life_compound, C04_life_vector: a call touches only its object, every changing call re-establishes the "
               "invariant so the theorems about const members apply at every point of a life, += / -= leave the same object as "
-              "= A + B / = A - B). That an answer of a const member depends on nothing but the current (rows, columns, components) "
+              "= A + B / = A - B). The block constructor is driven on grids whose blocks differ in character (ordinary, tiny / huge as a whole, a single non-zero entry, all +0.0 / -0.0; sizes along a ladder that includes the points where squares of entries leave the double range) and on objects with a call history / live objects as blocks (theorems C04_block_constructor, C04_block_single: every entry of every block is copied, whatever its value). That an answer of a const member depends on nothing but the current (rows, columns, components) "
               "is how the model is built (the classes have no other data member), not a theorem about the C++: it is what the "
               "sessions test, each answer being judged against the definition on the value a fresh object would hold.")
 LEVEL_NOTE = ("Coq 8.16.1 + MathComp 1.15; theorems are axiom-free; hand-written model tied by differential correspondence (extraction with "
